@@ -108,7 +108,7 @@ func (c20Engine) Gen(g *Gen) {
 		}
 	}
 	// random texts
-	words := []string{"a", "to", "the", "quick", "brown", "jumps", "überläuft", "日本語", "supercalifragilistic", "x", "\xff", "é", "1234567"}
+	words := []string{"a", "to", "the", "quick", "brown", "jumps", "überläuft", "日本語", "supercalifragilistic", "x", "\xff", "é", "1234567", "12", "7", "100", "42"}
 	blanks := []string{" ", " ", " ", "  ", "\n", "\t", "\r\n", " ", "\u0085", " ", " ", " ", "　", "\v", "\f"}
 	n := 3000
 	if g.Thorough() {
@@ -164,6 +164,13 @@ func (c20Engine) Run(raw json.RawMessage) (interface{}, error) {
 		return nil, err
 	}
 	out := pgs.C(in.Wrap, in.Text.String())
+	// the text of a comment is fmt.Sprint of the operands: the same text handed over in several
+	// operands of mixed kinds (strings, string-kind names, ints) must wrap the same
+	if args := c20Operands(in.Text.String()); len(args) > 1 && fmt.Sprint(args...) == in.Text.String() {
+		if out2 := pgs.C(in.Wrap, args...); out2 != out {
+			out = out2
+		}
+	}
 	lines := []c20Line{}
 	if out == "" {
 		return lines, nil
@@ -190,6 +197,51 @@ func (c20Engine) Run(raw json.RawMessage) (interface{}, error) {
 		lines = append(lines, ln)
 	}
 	return lines, nil
+}
+
+// c20Operands cuts text into operands whose fmt.Sprint is text again: digit runs become ints (a
+// single blank between two ints is what Sprint itself inserts), the rest alternates between
+// string and pgs.Name.
+func c20Operands(text string) []interface{} {
+	type tok struct {
+		s     string
+		n     int
+		isInt bool
+	}
+	var toks []tok
+	digit := func(c byte) bool { return c >= '0' && c <= '9' }
+	for i := 0; i < len(text); {
+		j := i
+		for j < len(text) && digit(text[j]) == digit(text[i]) {
+			j++
+		}
+		t := tok{s: text[i:j]}
+		if digit(text[i]) && len(t.s) <= 9 && (len(t.s) == 1 || t.s[0] != '0') {
+			t.isInt = true
+			for _, c := range []byte(t.s) {
+				t.n = t.n*10 + int(c-'0')
+			}
+		}
+		toks = append(toks, t)
+		i = j
+	}
+	var args []interface{}
+	flip := false
+	for k, t := range toks {
+		switch {
+		case t.isInt:
+			args = append(args, t.n)
+		case t.s == " " && k > 0 && k+1 < len(toks) && toks[k-1].isInt && toks[k+1].isInt:
+			// Sprint puts this blank between the two ints itself
+		default:
+			if flip = !flip; flip {
+				args = append(args, t.s)
+			} else {
+				args = append(args, pgs.Name(t.s))
+			}
+		}
+	}
+	return args
 }
 
 func init() { register("c20", c20Engine{}) }
